@@ -242,6 +242,13 @@ func evalText(run *ev.Run, c *Case) string {
 	return ""
 }
 
+func clip(s string, n int) string {
+	if len(s) > n {
+		return s[:n] + "…"
+	}
+	return s
+}
+
 var posPrefix = regexp.MustCompile(`^\S+:\d+:\d+: `)
 
 func firstLine(s string) string {
@@ -473,6 +480,7 @@ func TestC12(t *testing.T) {
 		if ri(rt, 0, 5, "two") == 0 {
 			c.Files["b.lox"] = mutate(rt, baseText(rt, corp), text)
 		}
+		run.Sample("mutated-text", map[string]any{"files": len(c.Files), "a.lox": clip(text, 400)})
 		if d := evalText(run, c); d != "" {
 			fail(c, "%s", d)
 		}
@@ -491,6 +499,9 @@ func TestC12(t *testing.T) {
 	for i, cfg := range allPkgConfigs() {
 		c := &Case{Kind: "pkg", Files: cfg.files, NoMod: cfg.nomod, Config: cfg.name}
 		run.Class("config:" + cfg.name)
+		if i%9 == 0 {
+			run.Sample("package-configuration", map[string]any{"name": cfg.name, "files": cfg.files})
+		}
 		d := evalPkg(run, c, false)
 		if d == "" && (run.Thorough() || (i+int(run.Seed))%3 == 0) {
 			d = evalPkg(run, c, true)
